@@ -238,7 +238,7 @@ func (c *Ctx) ruleStrJoin() {
 	nonEmpty := func(st *State, calls []*ssa.Call) (*Term, bool, bool) {
 		for _, sc := range calls {
 			t := fa.term(st, sc)
-			if v, k := known(st, tt.mk(Term{K: "B", S: "<", A: c.intConst(0), B: tt.mk(Term{K: "LEN", A: t})})); k {
+			if v, k := c.strEmptiness(fa, st, t); k {
 				return t, v, true
 			}
 		}
@@ -445,4 +445,28 @@ func (c *Ctx) ruleStrLeadOnce() {
 	if n == 0 {
 		rep.bad("R-STR", relName(fn), "LEADONCE: operator prefix", c.p.pos(fn.Pos()), "no write of the leading operator found")
 	}
+}
+
+// strEmptiness: what the path knows about a string term being empty, under any
+// spelling of the test (len(s) > 0, len(s) == 0, len(s) != 0, s == "", s != "").
+func (c *Ctx) strEmptiness(fa *FnAnalysis, st *State, t *Term) (nonEmpty bool, known bool) {
+	tt := c.eng.tt
+	lenT := tt.mk(Term{K: "LEN", A: t})
+	if v, k := fa.knownTerm(st, aTR, tt.mk(Term{K: "B", S: "<", A: c.intConst(0), B: lenT})); k {
+		return v, true
+	}
+	if v, k := fa.knownTerm(st, aTR, tt.mk(Term{K: "B", S: "==", A: c.intConst(0), B: lenT})); k {
+		return !v, true
+	}
+	empty := tt.mk(Term{K: "C", S: `""`, Const: constant.MakeString("")})
+	if v, k := fa.knownTerm(st, aTR, tt.mk(Term{K: "B", S: "==", A: t, B: empty})); k {
+		return !v, true
+	}
+	if c.provesFact(fa, st, Fact{aTR, tt.mk(Term{K: "B", S: "<", A: c.intConst(0), B: lenT}), true}, nil) {
+		return true, true
+	}
+	if c.provesFact(fa, st, Fact{aTR, tt.mk(Term{K: "B", S: "==", A: c.intConst(0), B: lenT}), true}, nil) {
+		return false, true
+	}
+	return false, false
 }
